@@ -14,13 +14,12 @@ Section Inline2.
     tbl s -> plain_sec (d_sec s) = true ->
     do_line top_known_sections fs rd cwd s line = Ok t -> tbl t /\ d_sec t = d_sec s.
   Proof.
-    intros Hh Hst Hbr (H1 & H2 & H3) Hp. unfold do_line. rewrite Hh, Hst, Hbr. cbv delta [known].
+    intros Hh Hst Hbr (H1 & H2) Hp. unfold do_line. rewrite Hh, Hst, Hbr. cbv delta [known].
     destruct (d_sec s) as [|x [|y r]] eqn:Es; cbn [plain_sec] in Hp; try discriminate.
     - unfold do_content. rewrite Es. cbn. discriminate.
     - assert (Hx1 : String.eqb x "moleculetype" = false) by (apply (plain_name_not_moltype fs rd); exact Hp).
-      assert (Hx2 : String.eqb x "molecules" = false) by (unfold plain_name in Hp; rewrite !andb_true_iff, !negb_true_iff in Hp; tauto).
-      destruct (do_content_plain s line x Es Hx1 Hx2) as [E|[E|(sh & E)]]; rewrite E; intros E'; try discriminate;
-        injection E' as <-; unfold tbl; cbn [d_sec d_itp d_itps d_mols with_sh]; auto.
+      destruct (do_content_plain s line x Es Hx1) as [E|[E|(sh & E)]]; rewrite E; intros E'; try discriminate;
+        injection E' as <-; unfold tbl; cbn [d_sec d_itp d_itps with_sh]; auto.
   Qed.
 
   (* ---- the two directors run over the same lines in states that differ in the register only ---- *)
@@ -71,14 +70,14 @@ Section Inline3.
   Variable fs : string -> option (list string).
 
   (* ---- a director that met only tables hands the shared record on unchanged ---- *)
-  Lemma finalize_tbl t : tbl t -> d_meta t = None -> finalize t = Ok (d_sh t).
+  Lemma finalize_tbl t : tbl t -> d_meta t = None -> finalize false t = Ok (d_sh t).
   Proof.
-    intros (H1 & H2 & H3) Hm. unfold finalize, itp_nonempty. rewrite H1, H2, H3, Hm. cbn [forallb negb].
+    intros (H1 & H2) Hm. unfold finalize, itp_nonempty. rewrite H1, H2, Hm. cbn [forallb negb orb].
     rewrite !app_nil_r. destruct (d_sh t); reflexivity.
   Qed.
 
   Lemma fresh_is_set_sec s : tbl s -> d_meta s = None -> fresh (d_sh s) = set_sec s [].
-  Proof. intros (H1 & H2 & H3) Hm. unfold fresh, set_sec. rewrite H1, H2, H3, Hm. reflexivity. Qed.
+  Proof. intros (H1 & H2) Hm. unfold fresh, set_sec. rewrite H1, H2, Hm. reflexivity. Qed.
 
   (* ---- the inlining theorem ---- *)
   Theorem include_inlined fuel cwd s line p rest ls' :
@@ -108,9 +107,9 @@ Section Inline3.
       + unfold finalize. change (d_meta (set_sec t a')) with (d_meta t). rewrite Em.
         destruct (itp_nonempty (set_sec t a')); reflexivity.
       + rewrite (finalize_tbl (set_sec t a') (tbl_set_sec t a' Ht') Em). f_equal.
-        destruct Ht as (H1 & H2 & H3). destruct Ht' as (K1 & K2 & K3).
-        unfold with_sh, set_sec. cbn [d_sec d_meta d_itp d_itps d_mols d_sh].
-        rewrite H1, H2, H3, K1, K2, K3, Hm, Em. reflexivity.
+        destruct Ht as (H1 & H2). destruct Ht' as (K1 & K2).
+        unfold with_sh, set_sec. cbn [d_sec d_meta d_itp d_itps d_sh].
+        rewrite H1, H2, K1, K2, Hm, Em. reflexivity.
     - subst eB. reflexivity.
   Qed.
 End Inline3.
@@ -132,7 +131,7 @@ Definition ex_fs (p : string) : option (list string) :=
   else if String.eqb p "ff/bonded.itp" then Some ["[ bondtypes ]"; "TA TA 1 0.15 1000"]
   else None.
 Definition ex_state : dstate :=
-  {| d_sec := ["defaults"]; d_meta := None; d_itp := None; d_itps := []; d_mols := [];
+  {| d_sec := ["defaults"]; d_meta := None; d_itp := None; d_itps := [];
      d_sh := {| sh_defaults := [["1"; "2"; "no"; "1.0"; "1.0"]]; sh_defines := []; sh_content := []; sh_blocks := []; sh_mols := [] |} |}.
 Example ex_inlined :
   tbl ex_state /\ tbl_lines false ["; force field"; "[ atomtypes ]"; "TA 12.0 0.0 A 0.3 1.0"; "#define FLEX"; "#ifdef FLEX";
